@@ -236,9 +236,11 @@ async fn scenario(w: World, specs: Vec<WSpec>, ops: Vec<Op>) -> Outcome {
         let inst = if m.keyed && m.enabled && op.k != K::Enable { st.name() } else { "n/a" };
         out.results.insert(format!("{opname}[{ty},enabled={en},inst={inst}]:{got}"));
         out.shapes.push(format!("{}{}{}{}{}>{}", opname, ty, en, inst, yn(op.with_handle && known.is_some()), got));
+        let base_op = opname.trim_end_matches("_w_timestamp").to_string();
         let mut flag = |expected: &str, got: &str, detail: String| {
             out.findings.push(Finding {
-                sig: format!("op={opname}|type={ty}|enabled={en}|inst={inst}|expected={expected}|got={got}"),
+                // the _w_timestamp variants share the implementation: same signature
+                sig: format!("op={base_op}|type={ty}|enabled={en}|inst={inst}|expected={expected}|got={got}"),
                 what: format!("{}: expected {expected}, got {got} ({detail})", op.show()),
                 step,
             });
@@ -384,18 +386,6 @@ async fn scenario(w: World, specs: Vec<WSpec>, ops: Vec<Op>) -> Outcome {
 
 fn plain(seq: u32) -> Plain {
     Plain { writer: 1, seq, payload: vec![1, 2, 3] }
-}
-
-trait MapOut<T> {
-    fn map<U>(self, f: impl FnOnce(T) -> U) -> Out<U>;
-}
-impl<T> MapOut<T> for Out<T> {
-    fn map<U>(self, f: impl FnOnce(T) -> U) -> Out<U> {
-        match self {
-            Out::Ok(v) => Out::Ok(f(v)),
-            o => o.cast(),
-        }
-    }
 }
 
 // ------------------------------------------------------------------------------------------
